@@ -86,6 +86,9 @@ def _impl(tier, seed, search):
                         X = ctor()
                     except Exception:
                         continue
+                    if fname == 'bare':
+                        # one square array of the class's own matrix size has no other reading: it is a member or it is refused
+                        L.fail(f'ctor-reinterprets:{cname}:{kind}', f'{cname}(array) with a {kind} matrix did not raise: it returned an object of {len(X)} value(s)', inp); continue
                     ok, why = holds_only_members(X, cname)
                     if not ok:
                         L.fail(f'ctor-accepts:{cname}:{kind}:{"bare" if fname == "bare" else "list"}',
@@ -225,6 +228,28 @@ def _impl(tier, seed, search):
         L.check('isskewa-true', bool(b.isskewa(M4)), dict(S=M4), 'isskewa rejects an se(3) matrix')
         Mb = M4.copy(); Mb[3, int(g.integers(4))] = abs(d)
         L.check('isskewa-false', not bool(b.isskewa(Mb)), dict(S=Mb), 'isskewa accepts a matrix with non-zero last row')
+        # exponents given as matrices that are not of algebra form — among them ones whose vee is zero (nothing but the rejected part is
+        # non-zero) — are refused by the exponential however they are supplied
+        if it % 6 == 0:
+            okS3 = b.skewa(np.r_[g.normal(size=3), g.normal(size=3) * 0.3]); okS2 = b.skewa(np.r_[g.normal(size=2), 0.3]); okw3 = b.skew(g.normal(size=3) * 0.3); okw2 = b.skew(0.2)
+            Z4 = np.zeros((4, 4)); bad4 = []
+            for (r_, c_, v_) in ((3, 3, 1.0), (3, 0, 10.0 ** g.uniform(-5, 0)), (1, 1, 0.5), (3, 2, -0.2)):
+                A_ = Z4.copy(); A_[r_, c_] = v_; bad4.append(A_)
+            A_ = Z4.copy(); A_[0, 1] = A_[1, 0] = 0.3; bad4.append(A_); bad4.append(np.eye(4)); A_ = okS3.copy(); A_[2, 2] = 10.0 ** g.uniform(-5, 0); bad4.append(A_); A_ = okS3.copy(); A_[3, 1] = 10.0 ** g.uniform(-5, 0); bad4.append(A_)
+            bad3 = [np.array([[0, 0.3, 0.1], [0.1, 0, 0.2], [0.3, 0.1, 0.0]]), np.eye(3) * 0.5, okw3 + np.diag([0, 10.0 ** g.uniform(-5, 0), 0]), np.array([[0, 0.3, 0], [0.3, 0, 0], [0, 0, 0.0]])]
+            bad23 = [np.array([[0, 0.3, 0.1], [0.1, 0, 0.2], [0, 0, 0.0]]), np.array([[0, 0, 0], [0, 0, 0], [0, 0, 1.0]]), okS2 + np.diag([0, 0, 10.0 ** g.uniform(-5, 0)]), np.array([[0, 0, 0], [0, 0, 0], [0.2, 0, 0.0]])]
+            bad2 = [np.array([[0.0, 0.3], [0.1, 0.0]]), np.array([[0.0, 0.3], [0.3, 0.0]]), np.eye(2) * 0.1, okw2 + np.diag([10.0 ** g.uniform(-5, 0), 0])]
+            groups_ = (('se(3)', bad4, okS3, (('trexp', lambda S_: b.trexp(S_)), ('SE3.Exp([S])', lambda S_: SE3.Exp([S_])), ('SE3.Exp([ok,S])', lambda S_: SE3.Exp([okS3, S_])), ('SE3.Exp((S,ok))', lambda S_: SE3.Exp((S_, okS3))), ('Twist3(S)', lambda S_: Twist3(S_)))),
+                       ('so(3)', bad3, okw3, (('trexp', lambda S_: b.trexp(S_)), ('SO3.Exp(S)', lambda S_: SO3.Exp(S_)), ('SO3.Exp([ok,S])', lambda S_: SO3.Exp([okw3, S_])), ('SO3.Exp([S])', lambda S_: SO3.Exp([S_])))),
+                       ('se(2)', bad23, okS2, (('trexp2', lambda S_: b.trexp2(S_)), ('SE2.Exp(S)', lambda S_: SE2.Exp(S_)), ('SE2.Exp([ok,S])', lambda S_: SE2.Exp([okS2, S_])), ('SE2.Exp([S])', lambda S_: SE2.Exp([S_])), ('Twist2(S)', lambda S_: Twist2(S_)))),
+                       ('so(2)', bad2, okw2, (('trexp2', lambda S_: b.trexp2(S_)), ('SO2.Exp(S)', lambda S_: SO2.Exp(S_)), ('SO2.Exp([ok,S])', lambda S_: SO2.Exp([okw2, S_])), ('SO2.Exp([S])', lambda S_: SO2.Exp([S_])), ('SO2.Exp((S,ok))', lambda S_: SO2.Exp((S_, okw2))))))
+            for alg_, bads_, ok_, calls_ in groups_:
+                for kb_, Sb_ in enumerate(bads_):
+                    for nm_, call_ in calls_:
+                        L.count('exp-rejects', key=(alg_, kb_, nm_)); L.sample('exp-rejects', dict(algebra=alg_, S=Sb_, call=nm_))
+                        try: got_ = call_(Sb_)
+                        except Exception: continue
+                        L.fail(f'exp-accepts:{alg_}:{nm_.split("(")[0]}', f'{nm_} accepted a matrix that is not of {alg_} form', dict(algebra=alg_, S=Sb_, call=nm_), observed=repr(got_)[:120])
         L.check('iseye', bool(b.iseye(np.eye(3))) and not bool(b.iseye(np.eye(3) + np.eye(3)[::-1] * abs(d))), dict(d=d), 'iseye disagrees with its definition')
         S6 = np.r_[g.normal(size=3), v]
         L.check('isunittwist-true', bool(b.isunittwist(S6)), dict(S=S6), 'isunittwist rejects a unit twist')
